@@ -83,6 +83,7 @@ pub struct Stats {
     pub injected_in: std::collections::BTreeSet<&'static str>,
     /// states in which close() was called (whatever it answered)
     pub close_called_in: std::collections::BTreeSet<&'static str>,
+    pub checksums_verified: u64,
 }
 
 pub struct World {
@@ -457,6 +458,14 @@ impl World {
             if seg.header.ctl.rst() && self.in_fair_phase {
                 self.stats.rst_emitted_in_fair = true;
             }
+            // in the checksum build every segment a TCB emits must verify under RFC 1071 with its pseudo header (C18)
+            if crate::codecs::CHECKSUM_BUILD {
+                let hb = guard(|| seg.header.serialize())?;
+                let text = seg.text.to_vec();
+                let ph = crate::codecs::pseudo_header(u32::from_be_bytes(addr(side).to_bytes()), u32::from_be_bytes(addr(1 - side).to_bytes()), 6, (hb.len() + text.len()) as u16);
+                ensure!(crate::codecs::rfc1071_verifies(&[&ph, &hb, &text]), "emitted_checksum_verifies", "tcp_checksum_of_tcb_segment", "step {step}: side {side} emitted {} whose checksum field {:#06x} does not verify against the pseudo header", self.seg_str(side, &seg, false), seg.header.checksum);
+                self.stats.checksums_verified += 1;
+            }
             let s = self.seg_str(side, &seg, false);
             self.ev(format!("emit {s}"));
             self.wire[side].push(seg);
@@ -738,7 +747,17 @@ pub fn gen_iss(e: &mut Entropy) -> u32 {
         0 => e.u32(),
         1 => (e.choose(140001) as u32).wrapping_sub(70000),
         2 => (1u32 << 31).wrapping_add(e.choose(140001) as u32).wrapping_sub(70000),
-        _ => u32::MAX - e.choose(70000) as u32,
+        _ => near_wrap(e.choose(70000) as u32),
+    }
+}
+
+/// An ISS up to 70000 below the wrap; one value in eight is one of the four numbers directly below 2^32-1, so that a SYN,
+/// a first data byte or a FIN lands exactly on 0xffffffff / 0 often (same entropy consumption as a plain choice).
+pub fn near_wrap(k: u32) -> u32 {
+    if k % 8 == 7 {
+        u32::MAX - 1 - ((k / 8) % 16) / 4
+    } else {
+        u32::MAX - k
     }
 }
 
